@@ -14,7 +14,7 @@ if grep -q '"status": "superseded' "$dir/meta.json"; then echo "SEEDED $id: SUPE
 git -C /repo apply "$dir/patch.diff" || { echo "SEEDED $id: patch does not apply"; exit 2; }
 caught=1
 for c in $checks; do
-  out=$(COVERIF_NOEVIDENCE=1 "$VERIF/bin/covr" "$c" --tier "${TIER:-quick}" 2>&1); code=$?
+  out=$(COVERIF_NOEVIDENCE=1 "${COVR_BIN:-$VERIF/bin/covr}" "$c" --tier "${TIER:-quick}" 2>&1); code=$?
   nv=$(echo "$out" | grep -c '^VIOLATION')
   echo "SEEDED $id: check=$c exit=$code violations=$nv :: $(echo "$out" | grep -m1 'sig=' | cut -c1-160)"
   [ $code = 1 ] && [ $nv -gt 0 ] && caught=0
